@@ -106,12 +106,19 @@ def run_legacy(sh):
     sh.exhaustive['hand-written parser classes: 6 rule names x 3 styles x 7 layouts'] = True
 
 
+# comment syntaxes: the usual punctuation-led ones, and word-led ones (REM ..., dnl ... lnd): a comment may begin with a name character
+CSTYLES = {'std': dict(c=COMMENTS, e=EOLC, ctexts=['(* c *)', '(**)', '(* a\nb *)'], etexts=['# x y\n', '#\n']),
+           'word': dict(c=r'dnl(?:.|\n)*?lnd', e=r'REM[^\n]*', ctexts=['dnl c lnd', 'dnllnd', 'dnl a\nb lnd'], etexts=['REM x y\n', 'REM\n'])}
+
+
 def gen_config(rnd):
     cfg = dict(ws=rnd.choice(['default', 'default', 'blank', 'none']), nameguard=rnd.choice([None, None, True, False]),
                namechars=rnd.choice(['', '', '-', '$_']), ignorecase=rnd.random() < 0.3,
                comments=rnd.random() < 0.5, eolc=rnd.random() < 0.5)
     if cfg['namechars'] and cfg['nameguard'] is False:
         cfg['nameguard'] = None   # namechars implies nameguard (config.py); "off + namechars" is not a documented combination
+    # word-led comments only where whitespace is skipped too: directly after an alphanumeric token they would read as part of the word
+    cfg['cstyle'] = 'word' if cfg['ws'] != 'none' and (cfg['comments'] or cfg['eolc']) and rnd.random() < 0.3 else 'std'
     cfg['how'] = {k: rnd.choice(['directive', 'setting']) for k in ('ws', 'nameguard', 'namechars', 'ignorecase', 'comments', 'eolc')}
     return cfg
 
@@ -139,33 +146,38 @@ def config_texts(cfg):
         put('namechars', 'namechars', repr(cfg['namechars']), 'namechars', cfg['namechars'])
     if cfg['ignorecase']:
         put('ignorecase', 'ignorecase', 'True', 'ignorecase', True)
+    cst = CSTYLES[cfg.get('cstyle', 'std')]
     if cfg['comments']:
-        put('comments', 'comments', '?"' + COMMENTS + '"', 'comments', COMMENTS)
+        put('comments', 'comments', '?"' + cst['c'] + '"', 'comments', cst['c'])
     if cfg['eolc']:
-        put('eolc', 'eol_comments', '/' + EOLC + '/', 'eol_comments', EOLC)
+        put('eolc', 'eol_comments', '/' + cst['e'] + '/', 'eol_comments', cst['e'])
     ng = cfg['nameguard']
     if cfg['namechars'] and ng is None:
         ng = True
-    ref = dict(ws=ws_regex(cfg), comments=COMMENTS if cfg['comments'] else None, eol_comments=EOLC if cfg['eolc'] else None,
+    ref = dict(ws=ws_regex(cfg), comments=cst['c'] if cfg['comments'] else None, eol_comments=cst['e'] if cfg['eolc'] else None,
                nameguard=ng, namechars=cfg['namechars'], ignorecase=cfg['ignorecase'])
     return directives, settings, ref
 
 
-def gen_run(rnd, cfg, allow_empty=False):
-    """a non-empty run of whitespace and comments that the configuration skips"""
+def gen_run(rnd, cfg, allow_empty=False, after_name=False):
+    """a non-empty run of whitespace and comments that the configuration skips.  after_name: the run follows a lexeme that ends in a name
+    character, so a word-led comment must not come first (it would read as the rest of that word)"""
     if cfg['ws'] == 'none':
         return rnd.choice(['(* c *)', '(**)']) if cfg['comments'] else ''
+    cst = CSTYLES[cfg.get('cstyle', 'std')]
     wschars = [' ', '\t'] if cfg['ws'] == 'blank' else [' ', '\t', '\n', '\r', '\r\n', '  ']
     n = rnd.randint(1, 3)
     out = ''
-    for _ in range(n):
+    for i in range(n):
         r = rnd.random()
+        if i == 0 and after_name and cfg.get('cstyle') == 'word':
+            r = 0.0
         if r < 0.6:
             out += rnd.choice(wschars)
         elif r < 0.8 and cfg['comments']:
-            out += rnd.choice(['(* c *)', '(**)', '(* a\nb *)'])
+            out += rnd.choice(cst['ctexts'])
         elif r < 0.95 and cfg['eolc'] and cfg['ws'] == 'default':
-            out += rnd.choice(['# x y\n', '#\n'])
+            out += rnd.choice(cst['etexts'])
         else:
             out += rnd.choice(wschars)
     return out
@@ -187,12 +199,12 @@ def layouts(rnd, cfg, lexs, upper_start=False):
                     ngaps += 1
             else:
                 base += ' '
-                varied += gen_run(rnd, cfg)
+                varied += gen_run(rnd, cfg, after_name=_ends_in_name(lexs[i - 1].text, cfg))
                 ngaps += 1
         base += lx.text
         varied += lx.text
     lead = gen_run(rnd, cfg) if rnd.random() < 0.5 and not upper_start else ''
-    trail = gen_run(rnd, cfg) if rnd.random() < 0.5 else ''
+    trail = gen_run(rnd, cfg, after_name=bool(lexs) and _ends_in_name(lexs[-1].text, cfg)) if rnd.random() < 0.5 else ''
     out = dict(base=base, varied=lead + varied + trail)
     # adversarial edits (decided by the reference only)
     adv = []
@@ -221,6 +233,10 @@ def layouts(rnd, cfg, lexs, upper_start=False):
     for k, t in enumerate(adv):
         out[f'adv{k}'] = t
     return out, ngaps
+
+
+def _ends_in_name(text, cfg):
+    return bool(text) and (text[-1].isalnum() or text[-1] == '_' or text[-1] in (cfg.get('namechars') or ''))
 
 
 def _join(parts, lexs, cfg):
@@ -372,7 +388,7 @@ def run_layout(sh, n):
             texts, ngaps = layouts(rnd, cfg, lx, upper_start)
             d, info = check_layout(rules, cfg, texts, model)
             cls = [f'ws:{cfg["ws"]}', f'nameguard:{cfg["nameguard"]}', f'namechars:{cfg["namechars"]!r}', f'ignorecase:{cfg["ignorecase"]}',
-                   'comments' if cfg['comments'] else 'no-comments', 'eol_comments' if cfg['eolc'] else 'no-eol-comments', f'base:{info.get("base")}']
+                   'comments' if cfg['comments'] else 'no-comments', 'comment-syntax:' + cfg.get('cstyle', 'std'), 'eol_comments' if cfg['eolc'] else 'no-eol-comments', f'base:{info.get("base")}']
             if info.get('adv_judged'):
                 cls.append('adversarial-judged')
             if upper_start:
